@@ -1,7 +1,31 @@
 import FindVerif.Theorems.C06
+import FindVerif.Theorems.C06Layout
+import FindVerif.Theorems.C06Args
 #print axioms FV.C06_blank
 #print axioms FV.C06_tokens_only
 #print axioms FV.C06_gap_kinds
 #print axioms FV.C06_synonyms
 #print axioms FV.C06_quoting
 #print axioms FV.C06_parens
+#print axioms FV.C06_layout
+#print axioms FV.C06_layouts_agree
+#print axioms FV.C06_layout_tree
+#print axioms FV.writes_punct
+#print axioms FV.writes_operator
+#print axioms FV.writes_test_nullary
+#print axioms FV.writes_action_nullary
+#print axioms FV.writes_test_unary
+#print axioms FV.writes_action_unary
+#print axioms FV.argWrites_word
+#print axioms FV.argWrites_number
+#print axioms FV.argWrites_format
+#print axioms FV.writes_depth
+#print axioms FV.writes_threads
+#print axioms FV.argWrites_cmp
+#print axioms FV.argWrites_size
+#print axioms FV.argWrites_time
+#print axioms FV.argWrites_perm_octal
+#print axioms FV.argWrites_types
+#print axioms FV.writes_test_binary
+#print axioms FV.writes_action_binary
+#print axioms FV.argExact_word
